@@ -9,7 +9,7 @@
 From Coq Require Import List Arith Ring_theory.
 Import ListNotations.
 From Flodym Require Import Base.ND Base.Env Np.Einsum Np.Index Model.Dims Model.Array Model.SubArray
-  Proofs.ArrayLemmas Proofs.IndexProofs Proofs.OrthoIndex Proofs.HandlerProofs Proofs.GetitemSpec Proofs.SetIndexProofs Proofs.SetitemSpec.
+  Proofs.ArrayLemmas Proofs.IndexProofs Proofs.OrthoIndex Proofs.HandlerProofs Proofs.GetitemSpec Proofs.SetIndexProofs Proofs.SetitemSpec Proofs.KeyForms.
 
 Theorem C05_assignment_keeps_dims_and_size :
   forall (R : Type) (rO rI : R) (radd rmul : R -> R -> R) (a a' : farr R) k r,
@@ -84,3 +84,33 @@ Proof.
     + constructor.
   - vm_compute. reflexivity.
 Qed.
+
+(* bare-item and tuple keys in assignments are the corresponding dict keys *)
+Theorem C05_bare_item_key_is_a_dict_key :
+  forall (R : Type) (rO rI : R) (radd rmul : R -> R -> R) (a y : farr R) it d, NoDup (aletters R a) -> only_in (adims a) it d ->
+  setitem R rO rI radd rmul a (KBare it) (RArr R y) = setitem R rO rI radd rmul a (KDict [(KLetter (dletter d), ISingle it)]) (RArr R y).
+Proof. exact setitem_bare_is_dict. Qed.
+Print Assumptions C05_bare_item_key_is_a_dict_key.
+
+Theorem C05_tuple_key_is_a_dict_key :
+  forall (R : Type) (rO rI : R) (radd rmul : R -> R -> R) (a y : farr R) its dsel, NoDup (aletters R a) ->
+  Forall2 (only_in (adims a)) its dsel -> NoDup (letters dsel) ->
+  setitem R rO rI radd rmul a (KTuple its) (RArr R y)
+  = setitem R rO rI radd rmul a (KDict (map (fun p => (KLetter (dletter (snd p)), ISingle (fst p))) (combine its dsel))) (RArr R y).
+Proof. exact setitem_tuple_is_dict. Qed.
+Print Assumptions C05_tuple_key_is_a_dict_key.
+
+(* target[{...}] = number *)
+Theorem C05_number_fills_the_region :
+  forall (R : Type) (rO rI : R) (radd rmul : R -> R -> R) (a a' : farr R) kvs (c : R),
+  wf R a -> wf_dict (adims a) no_asg kvs ->
+  let F := asg_of no_asg kvs in
+  let dout := flat_map (out_for F) (adims a) in
+  no_lists F (adims a) -> distinct_items F (adims a) ->
+  setitem R rO rI radd rmul a (KDict kvs) (RNum R c) = Ok a' ->
+  adims a' = adims a
+  /\ (forall e, (forall d, In d dout -> lookup e (dletter d) < dlen d) -> den R rO a' (src_env F (adims a) e) = c)
+  /\ (forall e, (forall d, In d (adims a) -> lookup e (dletter d) < dlen d) ->
+        ~ in_region F (adims a) e -> den R rO a' e = den R rO a e).
+Proof. exact setitem_number_fills. Qed.
+Print Assumptions C05_number_fills_the_region.
